@@ -379,3 +379,22 @@ def replay_single(engine_args, case, workdir):
     f = workdir / "replay-case.ndjson"
     f.write_text(json.dumps(case) + "\n")
     return run_vh(engine_args, [f], procs=1)
+
+
+def validate_trace(module, cfg, trace, name, workdir, env=None, timeout=300, deque=True):
+    """impl -> spec: TLC decides whether a recorded trace is a behaviour of the trace specification.
+    Returns (accepted, TlcResult, rejection text)."""
+    e = {"TRACE": str(trace)}
+    if env:
+        e.update(env)
+    r = tlc(module, cfg, name, workdir, workers=1, timeout=timeout, env=e, deque=deque, xmx="3g")
+    if r.timed_out or r.errors and not r.violated and not r.postcondition_failed:
+        tool_error(f"trace validation '{name}' failed to run: rc={r.rc} errors={r.errors[:3]}")
+    rejected = ""
+    with open(r.out, errors="replace") as f:
+        for line in f:
+            if "REJECTED" in line:
+                rejected = line.strip()[:2000]
+                break
+    accepted = r.rc == 0 and not r.violated and not r.postcondition_failed and not rejected
+    return accepted, r, rejected
